@@ -332,7 +332,7 @@ LATE = {
     "C04": " max_interval in 11 spellings incl. numpy scalars and zero; time bins that do not begin with a point; narrow bins "
            "(bin_factor < 1) with pairs further apart than one bin.",
     "C05": " Every yielded dataset must announce, and every written file be named by, the time span of the primary points it holds.",
-    "C10": " align(): nested primaries (a secondary shared by primaries that are not neighbours); a read error inside a bundle.",
+    "C10": " align(): nested primaries (a secondary shared by primaries that are not neighbours); a read error inside a bundle; failing readers whose error is a TypeError are still called exactly once.",
     "C11": " A user-defined placeholder regex with a foreign file in the fileset's directories that no operation may touch; falsy "
            "contents; whole-fileset read-back through collect(); post_reader on compressed files. Time stamps finer than the file names (minute, second, millisecond templates): each content lands in, and is found in, the name-resolution bin containing its stamp.",
     "C12": " Names at the file system's NAME_MAX.",
